@@ -230,7 +230,7 @@ CLAIMED = {
                 "line breaks as text:s / text:tab / text:line-break, text:span mark-up, several paragraphs per cell, in any combination - the transcription of ods_rows "
                 "returns exactly the rows and cell texts of that sheet (C15_decode_encode, via the run-length lemma C15_runs_lossless and the cell text lemmas of "
                 "Proofs/OdsLemmas.lean: white-space mark-up, split/join of lines); a missing sheet, an unreadable container and a bad repeat count give a "
-                "data-format error; C15_decode_encode_grouped / C15_decode_encode_covered: the same decode = identity theorem for documents whose rows sit in row containers / whose rows store every second cell as a covered cell; C15_row_containers: rows wrapped into table:table-header-rows, table:table-row-group (nested) and table:table-rows are found in "
+                "data-format error; C15_decode_encode_grouped / C15_decode_encode_covered / C15_decode_encode_grouped_covered (both at once): the same decode = identity theorem for documents whose rows sit in row containers / whose rows store every second cell as a covered cell; C15_row_containers: rows wrapped into table:table-header-rows, table:table-row-group (nested) and table:table-rows are found in "
                 "document order (repair 7fe378e), cells covered by a merge take up their column (repair d8cb48e; C15_covered_cells: decoding a row does not depend on which cells are "
                 "stored as covered cells); "
                 "one proved counterexample: row runs are not expanded (open finding; the three text findings were repaired by "
